@@ -3,8 +3,8 @@
 import json
 TECH = "contract-based deductive verification: contracts as //@ comments on the real functions, VCs generated from go/ssa of the current working tree, every obligation discharged by z3 4.8 / z3 5.1 / cvc5 (raced)"
 claimed = {
- "C01": ("Proved for all inputs: the rounding core (setExpAndRound, Set, SetPrec, Neg, Abs, Sub(0,y)) returns RoundSpec of the exact input; sign rules, exact cancellation, under/overflow of Add/Sub/Mul/Quo; index/nil/frame safety of the whole cone (uadd, usub, umul, uquo, dec.add/sub/shl, kernels). The value clause of round itself and the exact-sum/product/quotient clauses of uadd/usub/umul/uquo are listed under assumed or not yet stated (see evidence.assumed_contracts and DESIGN.md section 5).",
-         "assumed: round.ensures[rounded,shape] (clause assumed), ucmp.ensures[value], dec.mul/sqr/div value contracts, assembly kernels (contract of the _g twin); operand size bounds (len <= 10^7 words, exponent gap <= 10^9)"),
+ "C01": ("Proved for all inputs, precisions, modes, signs and aliasings: round() returns RoundSpec (the arithmetic definition of rounding, written from the property statement) of its input mantissa; Add/Sub return RoundSpec of the exact sum/difference, Mul of the exact product (via the assumed dec.mul/sqr value contract), Quo of the Euclidean quotient with sticky remainder and enough digits (ghost witnesses, DESIGN.md 10.3); Set/SetPrec/Neg/Abs likewise; under/overflow to +-0/+-Inf; index/nil/frame safety of the whole cone.",
+         "assumed: ucmp.ensures[value] (clause assumed), dec.mul/sqr/div value contracts, assembly kernels (contract of the _g twin); one paper step for Quo (DESIGN.md 10.3); operand size bounds (len <= 10^7 words, exponent gap <= 10^9)"),
  "C02": ("Proved: acc component of RoundSpec for Set/SetPrec/setExpAndRound, under/overflow accuracy, Exact on cancellation and special values, setters SetInt64/SetUint64/NewDecimal/SetMantExp range clauses.", "same assumed clauses as C01"),
  "C03": ("Proved: FMA special-value table, zero-sum sign rule, ErrNaN iff invalid, operands unchanged, validity, for every aliasing of z with x, y, u. The single-rounding value clause is not yet stated; the product-out-of-exponent-range case is excluded by a precondition and recorded as a known finding.", "requires[prodrange], requires[range] size bounds; Add/umul contracts"),
  "C04": ("Proved: IEEE special-value tables of Add/Sub/Mul/Quo/FMA/Set/Neg/Abs/SetInf, `panics ErrNaN iff invalid operation`, receiver valid on the exceptional exit, and unreachability of every other panic site (index, slice, nil, division, explicit panic) in the functions under contract.", "functions not under contract (Sqrt, formatting, parsing, Float conversions, Karatsuba/division internals) are not covered by the no-other-panic half"),
@@ -15,6 +15,8 @@ claimed = {
  "C10": ("Corollary: every result-determining postcondition (C01/C02/C03 clauses) is proved with pointers, slice headers, stale buffer contents and the receiver's previous value unconstrained, so results are functions of operand values, precision and mode only.", "same assumed clauses as C01"),
  "C14": ("Proved: SetInt64/SetUint64/NewDecimal/setBits64/setUint64: sign, zero, precision, saturation when the exponent leaves the range, validity, no wrap of the int64 exponent sum. Int64/Uint64/Int/Rat/SetInt/SetRat/IsInt/MinPrec not under contract yet.", "value-rounding clause of setBits64 via round (assumed clause)"),
  "C16": ("Proved: Cmp is the sign of x-y over {-Inf, finite, 0, +Inf} given ucmp's digit-wise contract; ord/Sign/Signbit/IsZero/IsInf consistent; loop safety of ucmp.", "ucmp.ensures[value] assumed (loop invariant for the value not yet proved)"),
+ "C17": ("Proved: GobDecode is total on arbitrary bytes (every index/slice/length obligation), returns an error with the receiver's scalars untouched or leaves valid(z) (canonical form: words below the base, normalized, fits the precision, trailing digits clear); a receiver with non-zero precision keeps precision and mode; empty input gives the zero value; GobEncode never panics on a valid Decimal, does not modify it, and writes version, header byte, precision and exponent bytes as specified; lemma gob_header: unpack(pack(mode, acc, form, sign)) is the identity, so the attribute round trip follows from the two contracts. Not covered: the mantissa bytes round trip (dec.bytes/setBytes are proved memory-safe and length-correct only; bigEndianWord assumed).",
+         "bigEndianWord assumed; mantissa byte values not specified; SetPrec contract for the rounding into a non-zero-precision receiver"),
  "C18": ("Proved sequentially: write frame of every function under contract is the receiver's fields and its own (or fresh) mantissa array; operands unchanged; results never alias an operand buffer. Race freedom then follows from the Go memory model (meta-argument, not machine-checked).", "sync.Pool exclusivity; Go memory model; functions not under contract"),
  "C19": ("Proved: every Context method: latched error => receiver untouched; NaN => recorded, no panic; otherwise result has the context's precision and mode; deferred handler re-panics every non-ErrNaN value; Err returns and clears.", "Decimal-layer contracts of the wrapped operations"),
  "C20": ("Proved: SetBitsExp (sign, zero, exactness, saturation, no int64 wrap), BitsExp, MantExp, SetMantExp (value preserved, zero/inf exactly when the exponent sum leaves the range).", "round clause assumed; size bounds"),
@@ -25,7 +27,6 @@ na = {
  "C12": "parsers are not under contract yet (io.ByteScanner model not built); agreement with math/big's grammar has no contract-expressible oracle",
  "C13": "oracle is the layout behaviour of fmt/strconv; a contract could only restate the implementation (DESIGN.md section 6)",
  "C15": "binary floating point (float64, math/big.Float) is outside the theories the solvers decide here (DESIGN.md section 6)",
- "C17": "GobEncode/GobDecode are not under contract yet",
 }
 checks = []
 for p in sorted(claimed):
